@@ -732,6 +732,8 @@ def execStmt : Nat → Stmt → St → St
          let r := forSlice n (vars.headD "_") b xs s3
          { r with cur := env }
        | .map m =>
+         -- Go's map iteration order is unspecified: with two or more entries the run is not a function of the program
+         if m.length ≥ 2 then { (s3.markUnsup "for-in over a map with several entries (iteration order unspecified)") with cur := env } else
          let r := forMap n vars b m s3
          { r with cur := env }
        | v => { (s3.fail ("for cannot loop over type " ++ v.kind.name)) with cur := env })
